@@ -532,6 +532,16 @@ impl<'a> From<bool> for DataOperator<'a> {
     }
 }
 
+/// A float as a query literal: a whole number keeps its fractional part ("3.0"), otherwise it would
+/// be read back as an integer and turn a float test into an integer test.
+fn float_literal(n: f64) -> String {
+    if n.is_finite() && n.fract() == 0.0 {
+        format!("{:.1}", n)
+    } else {
+        format!("{}", n)
+    }
+}
+
 impl<'a> DataOperator<'a> {
     /// Turns the DataOperator to a string, compatible with STAMQL
     pub fn to_string(&self) -> Result<String, StamError> {
@@ -558,15 +568,15 @@ impl<'a> DataOperator<'a> {
                 )),
             },
             DataOperator::EqualsInt(n) => Ok(format!("= {}", n)),
-            DataOperator::EqualsFloat(n) => Ok(format!("= {}", n)),
+            DataOperator::EqualsFloat(n) => Ok(format!("= {}", float_literal(*n))),
             DataOperator::GreaterThan(n) => Ok(format!("> {}", n)),
             DataOperator::GreaterThanOrEqual(n) => Ok(format!(">= {}", n)),
             DataOperator::LessThan(n) => Ok(format!("< {}", n)),
             DataOperator::LessThanOrEqual(n) => Ok(format!("<= {}", n)),
-            DataOperator::GreaterThanFloat(n) => Ok(format!("> {}", n)),
-            DataOperator::GreaterThanOrEqualFloat(n) => Ok(format!(">= {}", n)),
-            DataOperator::LessThanOrEqualFloat(n) => Ok(format!("<= {}", n)),
-            DataOperator::LessThanFloat(n) => Ok(format!("< {}", n)),
+            DataOperator::GreaterThanFloat(n) => Ok(format!("> {}", float_literal(*n))),
+            DataOperator::GreaterThanOrEqualFloat(n) => Ok(format!(">= {}", float_literal(*n))),
+            DataOperator::LessThanOrEqualFloat(n) => Ok(format!("<= {}", float_literal(*n))),
+            DataOperator::LessThanFloat(n) => Ok(format!("< {}", float_literal(*n))),
             DataOperator::ExactDatetime(d) => Ok(format!("= {}", d.to_rfc3339())),
             DataOperator::AfterDatetime(d) => Ok(format!("> {}", d.to_rfc3339())),
             DataOperator::AtOrAfterDatetime(d) => Ok(format!(">= {}", d.to_rfc3339())),
